@@ -4,6 +4,7 @@ import (
 	"bytes"
 	"context"
 	"fmt"
+	"github.com/fullstorydev/grpchan"
 	"google.golang.org/protobuf/types/known/anypb"
 	"io"
 	"math/rand"
@@ -174,6 +175,46 @@ func checkC14(e *core.Env) {
 							e.Violate(fmt.Sprintf("matrix/client-code/%s/code%d/%s", rend.name, code, c14OptNames[oi]), fmt.Sprintf("handler returned code %d; renderer %s produced HTTP %d; client (call options: %s) saw %v", code, rend.name, resp.StatusCode, c14OptNames[oi], cerr), cell)
 						}
 					}
+				}
+			}
+		}
+	}
+	// handler sets created one after another on muxes of the application's own: one with an error renderer of
+	// its own first, then one without any option - the second one renders errors by the documented table
+	{
+		customSvc, plainSvc := &Service{}, &Service{}
+		regA, regB := grpchan.HandlerMap{}, grpchan.HandlerMap{}
+		regA.RegisterService(&ScriptedDesc, customSvc)
+		regB.RegisterService(&ScriptedDesc, plainSvc)
+		muxA, muxB := http.NewServeMux(), http.NewServeMux()
+		httpgrpc.HandleServices(muxA.HandleFunc, "/", regA, nil, nil, httpgrpc.ErrorRenderer(func(_ context.Context, _ *status.Status, w http.ResponseWriter) { w.WriteHeader(418) }))
+		httpgrpc.HandleServices(muxB.HandleFunc, "/", regB, nil, nil)
+		for _, code := range allCodes {
+			if code == 0 {
+				continue
+			}
+			caseNo++
+			if !e.Selected("matrix", caseNo) {
+				continue
+			}
+			e.Begin("matrix", caseNo, fmt.Sprintf("handler-sets-in-order code=%d", code))
+			for which, mux := range []*http.ServeMux{muxA, muxB} {
+				svc := []*Service{customSvc, plainSvc}[which]
+				sc := &Script{Kind: Unary, UnaryReq: &tpb.Message{Payload: []byte("c14")}, Ret: Ret{How: "status", Code: code, Msg: "m"}}
+				run := svc.NewRun(sc, "http-direct")
+				rec := httptest.NewRecorder()
+				mux.ServeHTTP(rec, unaryHTTPRequest(context.Background(), "/", run, nil))
+				svc.Forget(run)
+				e.Eval(fmt.Sprintf("handler-sets-in-order|%d|%d", which, code), true)
+				want := 418
+				if which == 1 {
+					want = http.StatusInternalServerError
+					if w, ok := table[codes.Code(code)]; ok {
+						want = w
+					}
+				}
+				if rec.Code != want {
+					e.Violate(fmt.Sprintf("special/handler-sets-in-order/http-status/set%d", which), fmt.Sprintf("two handler sets, the first created with an error renderer of its own (always 418), the second without options: set #%d answered code %d with HTTP %d, want %d", which+1, code, rec.Code, want), nil)
 				}
 			}
 		}
